@@ -72,6 +72,23 @@ def handle (line : String) : String :=
     match n.toNat?, caseFns.lookup fn with
     | some n, some c => showO toString (loopOut c n)
     | _, _ => "bad-op"
+  | ["gatedfn", tool, fn, n] =>
+    match n.toNat?, caseFns.lookup (tool ++ "." ++ fn), identGates.lookup tool with
+    | some n, some c, some (g, _) => showO toString (gatedLoopOut g c n)
+    | _, _, _ => "bad-op"
+  | ["gate", tool, n] =>
+    match n.toNat?, identGates.lookup tool with
+    | some n, some (some g, _) => if g < n then "reject" else s!"ok {n}"
+    | some n, some (none, _) => s!"ok {n}"
+    | _, _ => "bad-op"
+  | ["desc", cnt, len] =>
+    match cnt.toNat?, len.toNat? with
+    | some cnt, some len => showO toString (descRun descCfg 0 (List.replicate cnt len))
+    | _, _ => "bad-op"
+  | ["filename", n] =>
+    match n.toNat? with
+    | some n => showO toString (fileNameOut fileNameCfg n)
+    | none => "bad-op"
   | ["errheap", cnt, p, b] =>
     match cnt.toNat?, p.toNat?, b.toNat? with
     | some cnt, some p, some b => errLoop errCfg ⟨p, b, false⟩ cnt 0 ⟨0, 0⟩
